@@ -177,7 +177,7 @@ def build(S, tier):
         I.path.assume(z3.And(j.t >= 0, j.t < to_z3(M, "int")))
         I.assign(node.target, j, frame)
         before = dict(mc.attrs)
-        yield from I.exec_block(node.body, frame)
+        yield from I.exec_loop_body(node, frame)
         loop_info["state_written"] = [a for a in mc.attrs if mc.attrs[a] is not before.get(a)]
         loop_info["slot"] = j
 
@@ -284,6 +284,57 @@ def build(S, tier):
                 S.prove(f"{label}#ensures.yielded_name_is_a_due_move@{i}", isinstance(y, str) and y in due_names, kind="ensures", why=repr(y))
         S.prove(f"{label}#cover.empty_forced_and_free_paths", saw_empty and saw_forced and saw_free, kind="cover",
                 why=f"empty={saw_empty} forced={saw_forced} free={saw_free}")
+
+    # ------------------------------------------------------------------ a step in which no move is due attempts nothing AND reports nothing
+    def run_idle(I):
+        models(I)
+        mc, tab, M, s = make_mc(I, 2)
+        I.path.assume(z3.And([s.t % t["interval"].t != 0 for t in tab]))
+        mc.attrs["move_history"] = [("zeta", True), ("alpha", None)]          # what the previous step recorded
+        out = list(I.iterate(I.call(I.getattr(mc, "step"), [], {})))
+        return dict(out=out, hist=mc.attrs["move_history"], rng=mc.attrs["_rng"])
+
+    label = f"{MC}.step[no move due]"
+    for i, p in enumerate(S.explore(run_idle, label, configure=lambda I: I.loop_contracts.__setitem__((MC + ".yield_moves", 0), loop_contract))):
+        S.adopt(p, prefix="[idle step]")
+        if p.status == "unsupported":
+            continue
+        if p.status != "return":
+            S.prove(f"{label}#noraise@{i}", False, kind="noraise", why=f"raises {p.exc!r}")
+            continue
+        v = p.value
+        S.prove(f"{label}#ensures.nothing_attempted_and_the_history_of_the_step_is_empty@{i}", v["out"] == [] and v["hist"] == [] and not v["rng"].draws, kind="ensures",
+                why=f"yielded {v['out']}, move_history {v['hist']}")
+
+    # ------------------------------------------------------------------ the schedule parameters of an entry survive the restart path
+    # (a weight of exactly 0 -- a move that is only ever attempted through its minimum count -- and an interval of 1 included)
+    def run_roundtrip(I):
+        for m in I.loader.all_module_names():
+            I.import_module(m)
+        MSt = I.get_class("quansino.utils.moves.MoveStorage")
+        move = I.call(I.get_class("quansino.moves.cell.CellMove"), [], {})
+        crit = I.call(I.get_class("quansino.mc.criteria.CanonicalCriteria"), [], {})
+        iv, w, c = I.path.fresh("interval", "int"), I.path.fresh("w"), I.path.fresh("c", "int")
+        I.path.assume(z3.And(iv.t >= 1, w.t >= 0, c.t >= 0))
+        ms = I.call(MSt, [], {"move": move, "criteria": crit, "interval": iv, "probability": w, "minimum_count": c})
+        d = I.call(I.getattr(ms, "to_dict"), [], {})
+        ms2 = I.call(I.getattr(MSt, "from_dict"), [d], {})
+        return dict(iv=iv, w=w, c=c, ms2=ms2)
+
+    label = "quansino.utils.moves.MoveStorage[to_dict -> from_dict]"
+    for i, p in enumerate(S.explore(run_roundtrip, label)):
+        S.adopt(p, prefix="[entry round trip]")
+        if p.status == "unsupported":
+            continue
+        if p.status != "return":
+            S.prove(f"{label}#noraise@{i}", False, kind="noraise", why=f"raises {p.exc!r}")
+            continue
+        v = p.value
+        a2 = v["ms2"].attrs
+        S.prove(f"{label}#ensures.interval_weight_and_minimum_count_preserved@{i}",
+                z3.And(to_z3(a2.get("interval"), "int") == v["iv"].t, to_z3(a2.get("probability"), "real") == v["w"].t, to_z3(a2.get("minimum_count"), "int") == v["c"].t), hyps=p.pc,
+                why="a schedule parameter of the rebuilt entry differs from the one that was saved")
+    S.register_function(S.new_interp(), "quansino.utils.moves.MoveStorage.from_dict", 1)
 
     # ------------------------------------------------------------------ add_move over-commit guard
     def run_add(I, k=2):
